@@ -2123,11 +2123,15 @@ func (k *Kernel) handleReplayedHeader(
 			// That is fine, as noted in the documentation for the RoundStore.
 		}
 
-		// The round store refuses a replayed header whose hash it already holds
-		// as a proposed header of this height (we saw the proposal in an earlier round):
-		// then the header is already persisted and there is nothing left to save.
-		if err := k.rStore.SaveRoundReplayedHeader(ctx, header); err != nil &&
-			!errors.As(err, new(tmstore.OverwriteError)) {
+		err := k.rStore.SaveRoundReplayedHeader(ctx, header)
+		if err != nil && errors.As(err, new(tmstore.OverwriteError)) {
+			// The round store refuses a replayed header whose hash it already holds
+			// as a proposed header of this height (we saw the proposal in an earlier round).
+			// File the header under the replayed round instead,
+			// so that a restart finds it next to that round's precommits.
+			err = k.rStore.SaveRoundProposedHeader(ctx, fakePH)
+		}
+		if err != nil {
 			return tmelink.ReplayedHeaderInternalError{
 				Err: fmt.Errorf(
 					"failed to save replayed header to round store: %w",
